@@ -22,7 +22,7 @@ PROP = 'C12'
 LEVEL = 'exploration'
 BATCH = 200
 TIERS = {
-    'quick': {'runs': 80000, 'budget': 50},
+    'quick': {'runs': 700000, 'budget': 35},
     'thorough': {'runs': 5_000_000, 'budget': 540},
 }
 RULE = ('seeded runs: hostile body bytes (uniform random; multipart from the reference encoder with 1-3 grammar '
